@@ -129,7 +129,7 @@ pub struct Ctx {
 pub fn real_cap_idx(v: &Vector, idx: u64) -> usize {
     if v.cap >= INF {
         let h = v.hdrs.len();
-        [h + 8, h + 1, h + 17, h + 40, 100 + h][(idx % 5) as usize].min(MAX_SLOTS - 4)
+        [h + 8, h + 1, h + 17, h + 40, 100 + h][(idx % 5) as usize].min(1000)
     } else {
         v.cap as usize
     }
@@ -182,7 +182,11 @@ impl Ctx {
     /// append the specification's completion witness and a few generic tails, and judge any
     /// Complete result under the observation-only properties
     fn probe(&mut self, v: &Vector, entry: u8, cap: usize, how: Place, line: &str) {
-        const TAILS: [&[u8]; 7] = [b" / HTTP/1.1\r\n\r\n", b" HTTP/1.1\r\n\r\n", b"\r\n\r\n", b": x\r\n\r\n", b"\n\n", b" 200 OK\r\n\r\n", b"x\r\n\r\n"];
+        const TAILS: [&[u8]; 11] = [
+            b" / HTTP/1.1\r\n\r\n", b" HTTP/1.1\r\n\r\n", b"\r\n\r\n", b": x\r\n\r\n", b"\n\n", b" 200 OK\r\n\r\n", b"x\r\n\r\n",
+            // a second defect behind the first one: the first still decides the error kind
+            b"XTTP/1.1\r\n\r\n", b" / XTTP/1.1\r\n\r\n", b"\x01\r\n\r\n", b" 2x0 OK\r\n\r\n",
+        ];
         let mut tails: Vec<Vec<u8>> = vec![v.completion.clone()];
         tails.extend(TAILS.iter().map(|t| t.to_vec()));
         for tail in tails {
@@ -192,6 +196,15 @@ impl Ctx {
             let p2: &[u8] = unsafe { std::slice::from_raw_parts(p2.as_ptr(), p2.len()) };
             let o = run(entry, v.cfg, p2, cap + 4);
             self.stats.observations += 1;
+            // the specification's error is final: no continuation of the buffer can change which
+            // element is named (C10 names the element holding the FIRST offending byte)
+            if v.st == ST_E && v.err != 7 && o.st == ST_E && !o.panicked && o.err != v.err && o.err != 7 {
+                let t: Tags = vec![
+                    ("C10", format!("Err({}) after the buffer grew, but the first offending byte makes it Err({})", ERR_NAMES[o.err as usize], ERR_NAMES[v.err as usize])),
+                ];
+                self.report(t, entry, &format!("{:?}, continued with {:?}", how, String::from_utf8_lossy(&tail)), line);
+                break;
+            }
             if o.st == ST_C && !o.panicked {
                 let mut t = Tags::new();
                 judge_zero_copy(v, &o, p2, &mut t);
@@ -230,6 +243,14 @@ impl Ctx {
         let cap = real_cap_idx(v, idx);
         let entry = primary_entry(v.kind);
         let modes = self.modes;
+        // the options the kind must ignore are set to a rotating pattern instead of all-off: the
+        // specification says they cannot matter, whichever check is running
+        let other = !v.relevant_mask() & 127;
+        let mut vv = v.clone();
+        if v.kind == K_REQ || v.kind == K_RESP {
+            vv.cfg = v.cfg | (((idx.wrapping_mul(0x9e3779b97f4a7c15) >> 40) as u8) & other);
+        }
+        let v = &vv;
 
         // ---- base observation: end of buffer flush against an unmapped page
         let buf = self.arena.place(&v.buf, Place::End);
@@ -451,6 +472,27 @@ impl Ctx {
                     if let Some(m) = same_result(&base, buf, &o, p2) {
                         let t = vec![("C02", format!("final answer changed after appending {:?}: {}", suf, m))];
                         self.report(t, entry, "suffix", line);
+                    }
+                }
+                // more of the same: the last byte (the one that decided) repeated, so that runs which
+                // ended the parse grow across every block width of the code
+                if let Some(&last) = v.buf.last() {
+                    const REPS: [usize; 14] = [1, 2, 3, 4, 7, 8, 9, 15, 16, 17, 31, 32, 33, 64];
+                    for (si, &k) in REPS.iter().enumerate() {
+                        if v.kind != K_CHUNK && (idx as usize + si) % 4 != 0 && v.buf.len() > 4 {
+                            continue;
+                        }
+                        let mut b2 = v.buf.clone();
+                        b2.extend(std::iter::repeat(last).take(k));
+                        let p2 = self.arena2.place(&b2, Place::End);
+                        let p2: &[u8] = unsafe { std::slice::from_raw_parts(p2.as_ptr(), p2.len()) };
+                        let o = run(entry, v.cfg, p2, cap);
+                        self.stats.observations += 1;
+                        self.stats.extensions_run += 1;
+                        if let Some(m) = same_result(&base, buf, &o, p2) {
+                            let t = vec![("C02", format!("final answer changed after appending {} more of byte {}: {}", k, last, m))];
+                            self.report(t, entry, "suffix", line);
+                        }
                     }
                 }
             }
